@@ -118,6 +118,6 @@ def main(tier, seed, replay):
     elif mism:
         # correspondence broke but the monitor saw no forbidden plaintext
         ck.violation(ck.replay_file("corr", {"obligation": "C06 correspondence (Cases/C06Run.c06_agree)", "what": mism[0][0], "Case": mism[0][1]}), False)
-    elif ck.discharged != ck.obligations:
+    elif ck.discharged != ck.obligations and not ck.violations:
         ck.violation(ck.replay_file("oblig", {"obligation": ck.cov.get("failed_obligations")}), False)
     return ck.finish()
